@@ -137,6 +137,12 @@ def gen_stream(rng, long=False):
             fr = fr[:60].ljust(60, b"\0")
         wire = len(fr) + rng.choice([0, 0, 10, 1000])
         recs.append((rng.getrandbits(31), rng.randrange(1000000), fr, None, wire))
+    if not long and rng.random() < 0.08:
+        # frames above 64 KiB (a stream with a large snaplen), content without any period
+        for k in range(rng.randint(1, 2)):
+            sz = rng.choice([65536, 65537, 70000, 131073])
+            body = bytes((j * j + 7 * j + k) % 251 for j in range(sz))
+            recs.insert(rng.randint(0, len(recs)), (rng.getrandbits(31), rng.randrange(1000000), body, None, None))
     if not long and rng.random() < 0.15:
         # frames larger than the stdout buffer with line-feed bytes at odd places
         for k in range(rng.randint(1, 4)):
@@ -148,7 +154,7 @@ def gen_stream(rng, long=False):
             recs.insert(rng.randint(0, len(recs)), (10 if rng.random() < 0.3 else rng.getrandbits(31), rng.randrange(1000000), fr[:34] + bytes(body), None, None))
     maxcap = max([len(r[2]) for r in recs] + [0])
     hdr = dict(magic=rng.choice([pkt.MAGIC_US, pkt.MAGIC_NS]), major=rng.choice([2, 2, 7]), minor=rng.choice([4, 4, 0]),
-               thiszone=rng.choice([0, 0, 7200, -3600]), sigfigs=rng.choice([0, 0, 6]), snaplen=rng.choice([max(maxcap, 1), 65535, 262144]),
+               thiszone=rng.choice([0, 0, 7200, -3600]), sigfigs=rng.choice([0, 0, 6]), snaplen=(rng.choice([max(maxcap, 1), 65535, 262144]) if maxcap <= 65535 else rng.choice([maxcap, 262144, 1 << 24]) if maxcap <= 262144 else maxcap),
                linktype=rng.choice([1, 1, 1, 113, 0]))
     return recs, hdr
 
@@ -258,6 +264,11 @@ def run(chk):
              lambda k, r: [r, ((7, k) if k % 2 == 0 else (r[0], r[1])) + (r[2], r[3], r[4]), ((7, k) if k % 2 == 0 else (r[0], r[1])) + (r[2], 77, r[4])]),
             ("@ { ($0).sec = 1; }\n@ true\n@ { ($0).sec = 2; }\n@ true\n@ { ($0).sec = 3; }\n@ true\n",
              lambda k, r: [(1,) + r[1:], (2,) + r[1:], (3,) + r[1:]]),
+            # a pattern that changes the packet while it is evaluated: the filter that selects it writes the changed packet
+            ("fn retag(e) { (e).src = \"02:00:00:00:00:01\"; return true; }\n@ true\n@ PL >= 14 && retag($1)\n",
+             lambda k, r: [r] + ([(r[0], r[1], r[2], r[3], r[4][:6] + pkt.mac_bytes(MAC_NEW) + r[4][12:])] if r[2] >= 14 else [])),
+            ("fn stamp(p, v) { (p).usec = v; return true; }\n@ stamp($0, 1)\n@ stamp($0, 2)\n@ NP > 0\n",
+             lambda k, r: [(r[0], 1) + r[2:], (r[0], 2) + r[2:], (r[0], 2) + r[2:]]),
             ("@ true\n@ PL >= 14 { ($0).usec = 9; ($1).src = \"02:00:00:00:00:01\"; }\n@ true\n",
              lambda k, r: [r, (r[0], 9, r[2], r[3], (r[4][:6] + pkt.mac_bytes(MAC_NEW) + r[4][12:])) if r[2] >= 14 else r]),
         ]
